@@ -145,7 +145,10 @@ theorem head_value' (st : Style) (i : Nat) {v : Value} (hw : v.wf = true) (hne :
     ∃ c t, printV st i v = c :: t ∧ okStart c = true := by
   cases v with
   | extant => exact absurd rfl hne
-  | float f => simp [Value.wf] at hw
+  | float f =>
+    rw [printV_prim_style st i rfl]
+    obtain ⟨c, t, h, hc⟩ := head_prim i (v := .float f) rfl hw
+    exact ⟨c, t, h, okStart_of_prim hc⟩
   | record a its =>
     cases a with
     | nil => exact ⟨'{', _, printV_record_nil' st i its, by decide⟩
@@ -154,27 +157,28 @@ theorem head_value' (st : Style) (i : Nat) {v : Value} (hw : v.wf = true) (hne :
       exact ⟨'@', _, List.cons_append .., by decide⟩
   | int k n =>
     rw [printV_prim_style st i rfl]
-    obtain ⟨c, t, h, hc⟩ := head_prim i (v := .int k n) rfl (by intro f h; cases h)
+    obtain ⟨c, t, h, hc⟩ := head_prim i (v := .int k n) rfl hw
     exact ⟨c, t, h, okStart_of_prim hc⟩
   | bool b =>
     rw [printV_prim_style st i rfl]
-    obtain ⟨c, t, h, hc⟩ := head_prim i (v := .bool b) rfl (by intro f h; cases h)
+    obtain ⟨c, t, h, hc⟩ := head_prim i (v := .bool b) rfl hw
     exact ⟨c, t, h, okStart_of_prim hc⟩
   | text s =>
     rw [printV_prim_style st i rfl]
-    obtain ⟨c, t, h, hc⟩ := head_prim i (v := .text s) rfl (by intro f h; cases h)
+    obtain ⟨c, t, h, hc⟩ := head_prim i (v := .text s) rfl hw
     exact ⟨c, t, h, okStart_of_prim hc⟩
   | data bs =>
     rw [printV_prim_style st i rfl]
-    obtain ⟨c, t, h, hc⟩ := head_prim i (v := .data bs) rfl (by intro f h; cases h)
+    obtain ⟨c, t, h, hc⟩ := head_prim i (v := .data bs) rfl hw
     exact ⟨c, t, h, okStart_of_prim hc⟩
 
 /-- What the attribute printer writes, any style. -/
-theorem printA_body' (st : Style) (i : Nat) {w : Value} (hw : w.wf = true) (hne : w ≠ .extant) :
+theorem printA_body' (st : Style) (i : Nat) {w : Value} (hw : w.wf = true) (hne : w ≠ .extant)
+    (hnf : ∀ f, w ≠ .float f) :
     printA st i w = '(' :: (printItems st i i true false (bodyItems w) ++ [')']) := by
   cases w with
   | extant => exact absurd rfl hne
-  | float f => simp [Value.wf] at hw
+  | float f => exact absurd rfl (hnf f)
   | int k n => simp [printA, bodyItems, printItems, printV]
   | bool b => simp [printA, bodyItems, printItems, printV]
   | text s => simp [printA, bodyItems, printItems, printV]
@@ -570,21 +574,57 @@ theorem attrs_step' {n : Nat} (ih : IHs n) (nm : List Char) (v : Value) (r : Att
       rw [hXe] at hcont
       rw [pAttrs_name_nobody f acc nm hx hxi]
       exact hcont f (by omega)
-  · rw [printA_body' st i hvw hve]
-    have hb := ih.items (bodyItems v) (by have := bodyItems_size v; omega) (bodyItems_wf hvw) st .ab i i false f
-      ((if r.isEmpty = true then [] else pad st ++ printAttrs st i r) ++ tail) false [] [] White.nil (Or.inl Spaces.nil)
-      (fun _ => bodyItems_notSoleExtant hve) (by intro h; cases h)
-      (by have := bodyItems_size v; omega)
-    simp only [Kind.close, List.nil_append] at hb
-    simp only [List.append_assoc, List.cons_append, List.nil_append] at hb ⊢
-    rw [pAttrs_name_body f acc nm hb, attrBody_bodyItems]
-    exact hcont f (by omega)
+  · by_cases hfl : ∃ x, v = .float x
+    · -- a float in attribute position is written in the `{:e}` layout
+      obtain ⟨x, rfl⟩ := hfl
+      cases x with
+      | nan => simp [Value.wf, Flt.isCanon] at hvw
+      | inf b => simp [Value.wf, Flt.isCanon] at hvw
+      | fin fneg fm fe =>
+        have hcan := Flt.canon_cases (by simpa [Value.wf] using hvw)
+        have hte : TokEnd (')' :: ((if r.isEmpty = true then [] else pad st ++ printAttrs st i r) ++ tail)) := by
+          intro y hy; simp at hy; subst hy; decide
+        have hl := lexPrim_expChars fneg fm fe hcan hte
+        obtain ⟨g, rfl⟩ : ∃ g, f = g + 1 := ⟨f - 1, by omega⟩
+        obtain ⟨g', rfl⟩ : ∃ g', g = g' + 1 := ⟨g - 1, by omega⟩
+        have hb : pItems (g' + 1 + 1) .ab false (expChars (.fin fneg fm fe) ++
+            ')' :: ((if r.isEmpty = true then [] else pad st ++ printAttrs st i r) ++ tail)) =
+            .ok (.val (.float (.fin fneg fm fe)) .nil,
+              (if r.isEmpty = true then [] else pad st ++ printAttrs st i r) ++ tail) := by
+          cases hx : expChars (.fin fneg fm fe) with
+          | nil =>
+            rw [hx] at hl; simp only [List.nil_append] at hl
+            exfalso
+            rcases lexPrim_head hl with h | h | h | h | h | h | h <;> revert h <;> decide
+          | cons c t =>
+            rw [hx] at hl
+            simp only [List.cons_append] at hl ⊢
+            have hps : primStart c = true := by
+              rcases lexPrim_head hl with h | h | h | h | h | h | h <;> simp [primStart, h]
+            obtain ⟨f1, f2, f3, f4, f5, f6⟩ := okStart_facts (okStart_of_prim hps) .ab
+            have he := pElem_prim (f := g') (primStart_ne hps '@' (by decide)) (primStart_ne hps '{' (by decide)) hl
+            rw [pItems]
+            simp only [skipMulti_cons f1, f3, ↓reduceIte, f4, Bool.false_eq_true, f5, he]
+            rw [pAfterValue]
+            simp [skipSpaces, List.dropWhile, isSpace, Kind.close]
+        simp only [printA, List.cons_append, List.append_assoc, List.nil_append]
+        rw [pAttrs_name_body _ acc nm hb]
+        simpa [attrBody, Value.norm] using hcont (g' + 1 + 1) (by omega)
+    · rw [printA_body' st i hvw hve (by intro x hx; exact hfl ⟨x, hx⟩)]
+      have hb := ih.items (bodyItems v) (by have := bodyItems_size v; omega) (bodyItems_wf hvw) st .ab i i false f
+        ((if r.isEmpty = true then [] else pad st ++ printAttrs st i r) ++ tail) false [] [] White.nil (Or.inl Spaces.nil)
+        (fun _ => bodyItems_notSoleExtant hve) (by intro h; cases h)
+        (by have := bodyItems_size v; omega)
+      simp only [Kind.close, List.nil_append] at hb
+      simp only [List.append_assoc, List.cons_append, List.nil_append] at hb ⊢
+      rw [pAttrs_name_body f acc nm hb, attrBody_bodyItems]
+      exact hcont f (by omega)
 
 theorem elem_prim' {f : Nat} (st : Style) (i : Nat) {v : Value} (hp : v.isPrim = true) (hw : v.wf = true)
     {rest : List Char} (hd : TokEnd rest) : pElem (f + 1) (printV st i v ++ rest) = .ok (v.norm, rest) := by
   rw [printV_prim_style st i hp]
   have hl := lexPrim_value i hp hw hd
-  obtain ⟨c, t, hc, hps⟩ := head_prim i hp (by intro x hx; subst hx; simp [Value.wf] at hw)
+  obtain ⟨c, t, hc, hps⟩ := head_prim i hp hw
   rw [hc] at hl ⊢
   simp only [List.cons_append] at hl ⊢
   exact pElem_prim (primStart_ne hps '@' (by decide)) (primStart_ne hps '{' (by decide)) hl
@@ -653,7 +693,7 @@ theorem elem_step' {n : Nat} (ih : IHs n) (v : Value) (hs : v.size ≤ n + 1) (h
   obtain ⟨f, rfl⟩ : ∃ f, fuel = f + 1 := ⟨fuel - 1, by omega⟩
   cases v with
   | extant => exact absurd rfl hne
-  | float x => simp [Value.wf] at hw
+  | float x => exact ⟨rest, elem_prim' st i rfl hw hd, rfl⟩
   | int k m => exact ⟨rest, elem_prim' st i rfl hw hd, rfl⟩
   | bool b => exact ⟨rest, elem_prim' st i rfl hw hd, rfl⟩
   | text s => exact ⟨rest, elem_prim' st i rfl hw hd, rfl⟩
@@ -716,7 +756,7 @@ theorem elem_step' {n : Nat} (ih : IHs n) (v : Value) (hs : v.size ≤ n + 1) (h
               have hxw : x.wf = true := by simp only [Items.wf, Bool.and_eq_true] at hiw; exact hiw.1
               simp only [printItems, ↓reduceIte, List.nil_append, List.append_nil]
               rw [printV_prim_style st i hxp]
-              obtain ⟨c, t, hc, hps⟩ := head_prim i hxp (by intro y hy; subst hy; simp [Value.wf] at hxw)
+              obtain ⟨c, t, hc, hps⟩ := head_prim i hxp hxw
               have hl := lexPrim_value i hxp hxw hd
               rw [hc] at hl ⊢
               simp only [List.cons_append] at hl ⊢
